@@ -30,14 +30,20 @@ Lemma upd_same s c v x : get_chan (s_chans s) c = Some x -> get_chan (s_chans (u
 Proof. intros H. unfold upd. cbn [s_chans]. rewrite H. apply get_set_same. Qed.
 
 Lemma upd_conn s c v : s_conn (upd s c v) = s_conn s /\ s_cerrs (upd s c v) = s_cerrs s /\
-  s_out (upd s c v) = s_out s /\ s_io (upd s c v) = s_io s /\ s_uuid (upd s c v) = s_uuid s.
-Proof. unfold upd. cbn. auto. Qed.
+  s_out (upd s c v) = s_out s /\ s_io (upd s c v) = s_io s /\ s_uuid (upd s c v) = s_uuid s /\
+  s_sendfail (upd s c v) = s_sendfail s.
+Proof. unfold upd. cbn. repeat split; auto. Qed.
 
 Lemma write_chans s c n str : s_chans (write s c n str) = s_chans s /\
-  s_conn (write s c n str) = s_conn s /\ s_cerrs (write s c n str) = s_cerrs s /\
-  s_out (write s c n str) = {| o_chan := c; o_name := n; o_str := str |} :: s_out s /\
-  s_io (write s c n str) = s_io s.
-Proof. unfold write. cbn. auto. Qed.
+  s_conn (write s c n str) = s_conn s /\
+  (s_sendfail s = false -> s_cerrs (write s c n str) = s_cerrs s) /\
+  s_out (write s c n str) = {| o_chan := c; o_name := n; o_str := str; o_sent := negb (s_sendfail s) |} :: s_out s /\
+  s_io (write s c n str) = s_io s /\ s_sendfail (write s c n str) = s_sendfail s.
+Proof. unfold write. cbn. repeat split; auto. intros ->. reflexivity. Qed.
+
+(* handed to the socket layer (whether or not the socket took it) *)
+Definition handed (s : sys) (c : nat) (n : oname) (str : bytes) : Prop :=
+  exists b, In {| o_chan := c; o_name := n; o_str := str; o_sent := b |} (s_out s).
 
 (* ---------- the frame rule: a frame for channel c touches channel c only ---------- *)
 Theorem on_frame_other s c f c' : c' <> c ->
@@ -54,10 +60,11 @@ Proof.
            now destruct (write_chans s c WChCloseOk []) as [-> _]).
 Qed.
 
-Theorem on_frame_conn s c f :
+Theorem on_frame_conn s c f : s_sendfail s = false ->
   s_conn (on_frame s c f) = s_conn s /\ s_cerrs (on_frame s c f) = s_cerrs s /\
   s_io (on_frame s c f) = s_io s.
 Proof.
+  intros Hsf.
   unfold on_frame.
   destruct (get_chan (s_chans s) c) as [v|]; [|auto].
   destruct (req_get (c_req v) (f_name f)) as [u|].
@@ -69,24 +76,34 @@ Proof.
     unfold close_channel.
     match goal with |- context [upd ?s1 c ?x] => destruct (upd_conn s1 c x) as (A & B & _ & D & _) end.
     rewrite A, B, D. destruct (st_eqb (s_conn s) CLOSED); auto;
-      try (destruct (write_chans s c WChCloseOk []) as (_ & X & Y & _ & Z); auto).
+      try (destruct (write_chans s c WChCloseOk []) as (_ & X & Y & _ & Z & _); rewrite (Y Hsf); auto).
+Qed.
+
+Lemma on_frame_sendfail s c f : s_sendfail (on_frame s c f) = s_sendfail s.
+Proof.
+  unfold on_frame. destruct (get_chan (s_chans s) c) as [v|]; [|reflexivity].
+  destruct (req_get (c_req v) (f_name f)) as [u|].
+  - destruct (resp_get (c_resp v) u); reflexivity.
+  - destruct (is_content (f_name f)); [reflexivity|].
+    destruct (f_name f); try reflexivity.
+    unfold close_channel. destruct (st_eqb (s_conn s) CLOSED); reflexivity.
 Qed.
 
 (* ---------- the broker closes a channel: exactly one CloseOk, whatever is queued ---------- *)
 Theorem close_channel_spec s c v code x :
-  get_chan (s_chans s) c = Some x -> s_conn s <> CLOSED ->
+  get_chan (s_chans s) c = Some x -> s_conn s <> CLOSED -> s_sendfail s = false ->
   let s' := close_channel s c v code in
-  s_out s' = {| o_chan := c; o_name := WChCloseOk; o_str := [] |} :: s_out s /\
+  s_out s' = {| o_chan := c; o_name := WChCloseOk; o_str := []; o_sent := true |} :: s_out s /\
   exists v', get_chan (s_chans s') c = Some v' /\
     c_state v' = CLOSED /\ c_tags v' = [] /\ c_inbound v' = [] /\
     c_errs v' = c_errs v ++ [{| e_kind := EChan; e_code := Some code |}].
 Proof.
-  intros Hreg Hopen. unfold close_channel.
+  intros Hreg Hopen Hsf. unfold close_channel.
   destruct (st_eqb (s_conn s) CLOSED) eqn:E.
   { destruct (s_conn s); try discriminate. now elim Hopen. }
   split.
   - match goal with |- context [upd ?s1 c ?y] => destruct (upd_conn s1 c y) as (_ & _ & O & _) end.
-    rewrite O. now destruct (write_chans s c WChCloseOk []) as (_ & _ & _ & W & _).
+    rewrite O. destruct (write_chans s c WChCloseOk []) as (_ & _ & _ & W & _). rewrite W, Hsf. reflexivity.
   - eexists. split.
     + eapply upd_same. destruct (write_chans s c WChCloseOk []) as [-> _]. exact Hreg.
     + cbn. auto.
